@@ -31,6 +31,8 @@ def main():
         name = os.path.basename(d)
         if want and not any(w in name for w in want):
             continue
+        if os.environ.get("RESEED_EXCLUDE") and os.environ["RESEED_EXCLUDE"] in name:
+            continue
         meta = json.load(open(os.path.join(d, "meta.json")))
         patch = os.path.join(d, "patch.diff")
         if sh("git", "-C", REPO, "apply", "--check", patch).returncode != 0:
@@ -47,7 +49,9 @@ def main():
             continue
         res = {"applies": True, "checks": {}}
         try:
-            props = [meta["property"]]
+            # the property's own check first; where the change was (also) evaluated against the check of the property whose
+            # code it touches (seed.py --also), those checks as well
+            props = [meta["property"]] + [k for k in (meta.get("check_results") or {}) if k != meta["property"]]
             t0 = time.time()
             for p in props:
                 r = sh(os.path.join(VERIF, "check"), p, "--no-evidence", cwd=VERIF)
@@ -61,7 +65,7 @@ def main():
             sh("git", "-C", REPO, "clean", "-fdq", "src", "tests")
         out[name] = res
         print(name, "detected" if res["detected"] else "MISSED", res["checks"], flush=True)
-    with open(os.path.join(VERIF, "seeded", "REGRESSION.json"), "w") as fh:
+    with open(os.environ.get("REGRESSION_OUT") or os.path.join(VERIF, "seeded", "REGRESSION.json"), "w") as fh:
         json.dump(out, fh, indent=1, sort_keys=True)
     missed = [k for k, v in out.items() if v.get("applies") and not v.get("detected")]
     print("applied:", sum(1 for v in out.values() if v.get("applies")), "missed:", missed)
